@@ -234,7 +234,7 @@ def _real_modes(rep, tier, seed):
                 solver = realruns.make_solver("mle", strategy, constraint)
                 err = pdq.error_residual_std(constraint=constraint)
                 sol = ivpsolve.solve_adaptive_save_at(solver=solver, error=err)(prior, save_at=jnp.asarray([0.0, 0.5, 1.0]), atol=1e-5, rtol=1e-4, dt0=0.01)
-                return sol.u.mean[0], sol.u.std[0], sol.num_steps, sol.output_scale
+                return sol.u.mean[0], sol.u.std[0], sol.num_steps, sol.output_scale, sol.u
 
             with warnings.catch_warnings():
                 warnings.simplefilter("ignore")
@@ -250,6 +250,17 @@ def _real_modes(rep, tier, seed):
                         rep.violation(f"impl:vmap:{ssm_name}:{strategy}:{name}", f"batch member {j} (steps {steps}) differs from the single solve by {realruns.rel(realruns.flat(a), realruns.flat(b)):.2e}", {})
                 if not np.array_equal(np.asarray(batched[2][j]), np.asarray(single[2])):
                     rep.violation(f"impl:vmap:{ssm_name}:{strategy}:steps", f"batch member {j}: step counts {np.asarray(batched[2][j])} vs {np.asarray(single[2])}", {})
+            # the batched solution object itself (two leading axes: batch, time): its mean / std read OUTSIDE vmap
+            try:
+                bm, bs = batched[4].mean[0], batched[4].std[0]
+                for j, single in enumerate(singles):
+                    rep.traces += 1
+                    rep.add_case(("vmap-real-object", ssm_name, strategy, j))
+                    for name, a, b, tol in (("mean", bm[j], single[0], 1e-8), ("std", bs[j], single[1], 1e-6)):
+                        if np.shape(a) != np.shape(b) or realruns.rel(realruns.flat(a), realruns.flat(b)) > tol:
+                            rep.violation(f"impl:vmap:{ssm_name}:{strategy}:batched-solution.{name}", f"u.{name} of the vmapped solution, member {j}: shape {np.shape(a)} vs {np.shape(b)} of the single solve, or values differ", {})
+            except Exception as e:  # raised inside the library when reading the batched solution
+                rep.violation(f"impl:vmap:{ssm_name}:{strategy}:batched-solution:exception", f"{type(e).__name__}: {str(e)[:200]}", {})
 
 
 def run(tier: str, seed: int) -> int:
